@@ -160,6 +160,30 @@ def hexahedral_exact(o):
         res = as_list(ef.grads[node])
         for k in range(3):
             o.prove(f'corner {node}: d f / d x_{k + 1} == g_{k + 1}', term(res[k]) == g[k], under=pc, kind='poly', poly=True)
+    # the same element routine on an accessor object that has processed a tetrahedron before (mixed meshes: the element routines are methods of one object and are
+    # called element by element in id order; whatever they keep on the object between calls must not change the result) - added after seed C19-d set up the hexahedral
+    # ansatz functions "only once".  Two corners, one identity per direction.
+    acc = Obj(o.cls(G3))
+    unit_tet = [(0, 0, 0), (1, 0, 0), (0, 1, 0), (0, 0, 1)]
+    tet = ElementFrame([tuple(z3.RealVal(v) for v in p) for p in unit_tet], [z3.RealVal(2 * x - 3 * y + 5 * z_ + 7) for x, y, z_ in unit_tet])
+    ef2 = ElementFrame(coords, vals)
+    o.I.run_id += 1
+    o.I.begin_path([])
+    o.I.oracle = oracle
+    o.I.keep_raw_conditions = True
+    try:
+        o.I.call(o.method(acc, '_compute_gradient_simplex'), [tet])
+        o.I.call(o.method(acc, '_compute_gradient_hexahedral'), [ef2])
+    finally:
+        o.I.oracle = None
+        o.I.keep_raw_conditions = False
+    pc2 = list(o.I.path.pc)
+    o.prove('after a tetrahedron on the same object: all eight corners were written', z3.BoolVal(sorted(ef2.grads) == list(range(8))))
+    for node in (0, 6):
+        if node in ef2.grads:
+            res = as_list(ef2.grads[node])
+            for k in range(3):
+                o.prove(f'after a tetrahedron on the same object: corner {node}: d f / d x_{k + 1} == g_{k + 1}', term(res[k]) == g[k], under=pc2, kind='poly', poly=True)
     o.trusted("sympy rational-function arithmetic (cancel / together) as back end of the exactness identities")
     o.note("corners with a singular Jacobian are skipped by the code (gradient stays 0.0): outside 'non-degenerate mesh'")
 
@@ -230,7 +254,7 @@ def b_gradients(ctx):
     warnings.simplefilter('ignore')
     sizes = [(2, 1, 1), (2, 2, 1)] if ctx.tier == 'quick' else [(2, 1, 1), (2, 2, 1), (2, 2, 2), (3, 2, 2)]
     numberings = ['contiguous', 'shifted', 'gapped', 'permuted']
-    ctx.bound = f"block meshes {sizes} (hexahedra, and each cell split into 6 tetrahedra), node positions perturbed by <= 0.15, node ids x element ids in {numberings}^2, element order shuffled / not, 2 linear fields; the contiguous meshes also with coordinates scaled by 1e-3 and 1e3"
+    ctx.bound = f"block meshes {sizes} (hexahedra, and each cell split into 6 tetrahedra), node positions perturbed by <= 0.15, node ids x element ids in {numberings}^2, element order shuffled / not, 2 linear fields; the contiguous meshes also with coordinates scaled by 1e-3 and 1e3; assemblies of a hexahedral and a tetrahedral part with 3 relative element-id orders x 2 row orders"
     ctx.rule = "non-trivial: ids not 1..N in order, or scaled coordinates; distinct by (operator, mesh, numbering, scale)"
     ctx.exhaustive = True
     fields = [(np.array([1.0, -2.0, 0.5]), 3.0), (np.array([0.0, 0.0, 7.0]), -1.0)]
@@ -266,6 +290,37 @@ def b_gradients(ctx):
                     worst = np.abs(got - g).max()
                     ctx.fail(f'C19:{op}:value:node-ids-{nn}', f'{op}: gradient of a linear field deviates by {worst:.3e} (mesh {size} x {scale}, node ids {nn}, element ids {en}, shuffled {shuffle}, tets {tets})',
                              {'mesh': size, 'node_ids': nn, 'elem_ids': en, 'shuffle': shuffle, 'tets': tets, 'scale': scale})
+    # assemblies that mix hexahedra and tetrahedra in one mesh frame (two separate parts), the element ids of the two kinds in every relative order - the element
+    # routines are methods of one accessor object and run element by element in id order (added after seed C19-d kept the hexahedral ansatz functions "set up once")
+    if ctx.shard == 0:
+        import pandas as pd
+        rng = np.random.default_rng(5)
+        hexes = block_mesh(2, 1, 1, rng).reset_index()
+        tets = block_mesh(1, 1, 1, rng, tets=True).reset_index()
+        tets['node_id'] += 1000
+        tets['x'] += 10.0
+        nh, nt = hexes.element_id.nunique(), tets.element_id.nunique()
+        orders = {'hexahedra-first': (list(range(1, nh + 1)), list(range(101, 101 + nt))), 'tetrahedra-first': (list(range(101, 101 + nh)), list(range(1, nt + 1))),
+                  'interleaved': ([1, 50][:nh], list(range(2, 2 + nt)))}
+        for oname, (hid, tid) in orders.items():
+            h2, t2 = hexes.copy(), tets.copy()
+            h2['element_id'] = h2.element_id.map(dict(zip(sorted(hexes.element_id.unique()), hid)))
+            t2['element_id'] = t2.element_id.map(dict(zip(sorted(tets.element_id.unique()), tid)))
+            for first in ('hex-rows-first', 'tet-rows-first'):
+                mesh = pd.concat([h2, t2] if first == 'hex-rows-first' else [t2, h2]).set_index(['element_id', 'node_id'])
+                for g, c in fields:
+                    df = mesh.copy()
+                    df['f'] = df[['x', 'y', 'z']].to_numpy() @ g + c
+                    ctx.case(True, key=('mixed', oname, first, tuple(g)))
+                    try:
+                        res = df.gradient_3D.gradient_of('f')
+                    except Exception as e:   # noqa
+                        ctx.fail(f'C19:gradient_3D:mixed-mesh:raises:{type(e).__name__}', f'gradient_3D on a mesh of hexahedra and tetrahedra ({oname}, {first}) raises {type(e).__name__}: {e}', {'order': oname})
+                        continue
+                    got = res[['df_dx', 'df_dy', 'df_dz']].to_numpy()
+                    if set(res.index) != set(df.index.get_level_values('node_id')) or not np.allclose(got, g, rtol=1e-7, atol=1e-7):
+                        ctx.fail(f'C19:gradient_3D:mixed-mesh:{oname}', f'gradient_3D on a mesh of hexahedra and tetrahedra (element ids {oname}, {first}): gradient of a linear field deviates by {np.abs(got - g).max():.3e}',
+                                 {'order': oname, 'rows': first})
     ctx.sample({'mesh': (2, 2, 1), 'node_ids': 'gapped', 'field': 'f = x - 2y + 0.5z + 3'})
 
 
